@@ -137,3 +137,117 @@ def install(eng):
 
     for k in ("gwf.core:_check_path", "gwf.core:_has_nonprintable_char"):
         eng.replayers[k] = replay_check_path
+
+    # ================================================================== Workflow (C19, C10 precedence)
+    import attrs
+    import gwf.core
+    import gwf.utils
+    W = vc.Workflow
+    OD = vc.Options
+    eng.classes["Workflow"].consts["defaults"] = OD
+    AT = T.ObjT("AnonymousTarget")
+    OPth = T.Opt(vc.Path)
+    eng.cls("AnonymousTarget", pyname="gwf.core:AnonymousTarget",
+            consts={"inputs": vc.Tree, "outputs": vc.Tree, "options": OD, "protect": vc.Tree, "spec": vc.SpecText,
+                    "group": T.Atom("Group"), "working_dir": OPth, "wd_given": T.BOOL})
+    f_ptruthy = z3.Function("path_truthy", vc.Path.sort(), z3.BoolSort())
+    sx = z3.String("s!pt")
+    eng.axioms.append(z3.ForAll([sx], f_ptruthy(vc.f_path_of_str(sx)) == (z3.Length(sx) > 0)))
+    eng.truthy_hooks["Path"] = lambda e, v: f_ptruthy(v.z)
+    # the working directory a template gets when its author does not give one: read from the real class
+    dflt = attrs.fields(gwf.core.AnonymousTarget).working_dir.default
+    vc.template_wd_default = eng.coerce(eng.lift(dflt), OPth) if dflt is not None else V(OPth, OPth.none())
+    eng.spec_consts["TEMPLATE_WD_DEFAULT"] = vc.template_wd_default
+    a2, b2, c2 = (OD.fresh(n_) for n_ in ("dA", "dB", "dC"))
+    for nm, v_ in (("dA", a2), ("dB", b2), ("dC", c2)):
+        eng.spec_consts[nm] = V(OD, v_)
+    eng.contract("gwf.utils:chain/2", body_of="gwf.utils:chain", params={"dcts": V(T.PY, ("pytuple", (V(OD, a2), V(OD, b2))))},
+                 returns=OD, locals={"new": OD}, ensures=["dict_eq(result, Chain(dA, dB))"], serves=["C10", "C19"],
+                 note="C10 precedence: the later dictionary wins (verified for two and three arguments)")
+    eng.contract("gwf.utils:chain/3", body_of="gwf.utils:chain",
+                 params={"dcts": V(T.PY, ("pytuple", (V(OD, a2), V(OD, b2), V(OD, c2))))},
+                 returns=OD, locals={"new": OD}, ensures=["dict_eq(result, Chain(Chain(dA, dB), dC))"], serves=["C10", "C19"])
+
+    def r_chain(e, args, kw, st, sink, n):
+        r = e.coerce(args[0], OD, n).z
+        for a_ in args[1:]:
+            r = vc.chain2(r, e.coerce(a_, OD, n).z)
+        e.called.add("gwf.utils:chain/%d" % len(args)) if len(args) in (2, 3) else None
+        yield st, V(OD, r)
+
+    eng.rules[gwf.utils.chain] = r_chain
+    NAMES = ["all(self.targets[k].name == k for k in self.targets)"]
+    eng.contract("gwf.workflow:Workflow._add_target", self_type=W, params={"self": W, "target": vc.Target},
+                 requires=NAMES, modifies=["self.targets"],
+                 ensures=NAMES + ["target.name in self.targets", "self.targets[target.name] == target",
+                                  "target.name not in old(self.targets)",
+                                  "forall(lambda k: implies(k != target.name, (k in self.targets) == (k in old(self.targets)) and "
+                                  "implies(k in self.targets, self.targets[k] == old(self.targets)[k])), Name)"],
+                 # C19: names are unique: a second target with the same name is rejected, never overwritten
+                 raises={"WorkflowError": {"cond": "target.name in self.targets", "modifies": []}}, serves=["C19"])
+    f_nametext = z3.Function("name_text", vc.Name.sort(), z3.StringSort())
+    eng.fn("NameText")(lambda e, st, nme: V(T.STR, f_nametext(nme.z)))
+    eng.contract(
+        "gwf.core:Target.__init__",
+        params={"name": vc.Name, "inputs": vc.Tree, "outputs": vc.Tree, "options": OD, "group": T.Opt(T.Atom("Group")),
+                "working_dir": vc.Path, "protect": vc.Tree, "spec": vc.SpecText},
+        returns=vc.Target, trusted=True, modifies=["Target.options"],
+        defaults={"group": V(T.Opt(T.Atom("Group")), T.Opt(T.Atom("Group")).none()),
+                  "spec": V(vc.SpecText, z3.Const("empty_spec", vc.SpecText.sort()))},
+        ensures=["result.name == name", "result.working_dir == working_dir", "result.inputs == inputs",
+                 "result.outputs == outputs", "dict_eq(result.options, options)", "IdentifierLike(NameText(name))",
+                 "forall(lambda t: implies(t != result, t.options == old(t.options)), Target)"],
+        raises={"GWFError": {"cond": "not IdentifierLike(NameText(name))", "modifies": []},
+                "InvalidPathError": {"cond": "True", "modifies": []}},
+        note="attrs-generated constructor + validators (is_valid_name and _check_path are verified on their own)")
+    eng.contract(
+        "gwf.workflow:Workflow.target", self_type=W,
+        params={"self": W, "name": vc.Name, "inputs": vc.Tree, "outputs": vc.Tree, "protect": T.Opt(vc.Tree), "options": OD},
+        returns=vc.Target, requires=NAMES, modifies=["self.targets", "Target.options"],
+        ensures=NAMES + [
+            # C19: a directly defined target lives in the workflow's working directory
+            "result.working_dir == self.working_dir", "result.name == name",
+            # C10: workflow defaults < keyword options
+            "dict_eq(result.options, Chain(self.defaults, options))", "self.targets[name] == result"],
+        raises={"WorkflowError": {"cond": "name in self.targets", "modifies": ["Target.options"]},
+                "GWFError": {"cond": "True", "modifies": []}, "InvalidPathError": {"cond": "True", "modifies": []}},
+        serves=["C19", "C10"])
+    eng.contract(
+        "gwf.workflow:Workflow.target_from_template", self_type=W,
+        params={"self": W, "name": vc.Name, "template": AT, "options": OD}, returns=vc.Target,
+        requires=NAMES + ["implies(not template.wd_given, template.working_dir == TEMPLATE_WD_DEFAULT)"],
+        modifies=["self.targets", "Target.options"],
+        ensures=NAMES + [
+            # C19: a template that does not name a working directory gets the workflow's
+            "implies(not template.wd_given, result.working_dir == self.working_dir)",
+            # C10: workflow defaults < template options < keyword options
+            "dict_eq(result.options, Chain(Chain(self.defaults, template.options), options))",
+            "result.name == name", "self.targets[name] == result"],
+        raises={"WorkflowError": {"cond": "name in self.targets", "modifies": ["Target.options"]},
+                "GWFError": {"cond": "True", "modifies": []}, "InvalidPathError": {"cond": "True", "modifies": []}},
+        serves=["C19", "C10"])
+
+    def replay_template_wd(eng_, ob, model, seed):
+        import os, tempfile
+        from gwf import Workflow, AnonymousTarget
+        wf = Workflow(working_dir="/some/workflow/dir")
+        tpl = AnonymousTarget(inputs=["in.txt"], outputs=["out.txt"], options={})
+        t = wf.target_from_template("T", tpl)
+        d = tempfile.mkdtemp(prefix="gwfverif-")
+        old = os.getcwd()
+        try:
+            os.chdir(d)
+            ins = t.flattened_inputs()
+        finally:
+            os.chdir(old)
+            os.rmdir(d)
+        want = ["/some/workflow/dir/in.txt"]
+        if ins != want:
+            return {"failed_on_real_code": True, "witness_class": "template-target-resolves-against-cwd",
+                    "input": {"workflow.working_dir": "/some/workflow/dir", "template": "AnonymousTarget(inputs=['in.txt'], "
+                              "outputs=['out.txt'], options={})", "invoked from": d},
+                    "observed": {"target.working_dir": t.working_dir, "flattened_inputs": ins}, "required": want,
+                    "call": "Workflow.target_from_template(name, template)", "candidates_tried": 1}
+        return {"failed_on_real_code": False, "candidates_tried": 1}
+
+    eng.replayers["gwf.workflow:Workflow.target_from_template"] = replay_template_wd
